@@ -48,44 +48,243 @@ def call_with_timeout(thunk, seconds=10):
         signal.signal(signal.SIGALRM, old)
 
 
-def make_case(ck, idx, rng, malformed, nargs, built):
-    """Generate program #idx, load it, run it; returns (case_term, runs_meta, prog, info) or None if rejected."""
-    g = ProgGen(rng, malformed=malformed)
-    prog, sig = g.program()
-    modname = f'c04_prog_{idx:05d}'
+# ---------------------------------------------------------------- operator tables (tie A)
+TABLE_HELPERS = {
+    'isnan': 'fp.isnan(x)', 'isinf': 'fp.isinf(x)', 'isfinite': 'fp.isfinite(x)', 'isnormal': 'fp.isnormal(x)',
+    'signbit': 'fp.signbit(x)', 'len': 'len(x)', 'sum': 'sum(x)', 'enumerate': 'enumerate(x)',
+    'min/1': 'min(x)', 'max/1': 'max(x)', 'min/2': 'min(x, y)', 'max/2': 'max(x, y)',
+    'fmin/2': 'fp.fmin(x, y)', 'fmax/2': 'fp.fmax(x, y)', 'any': 'any(x)', 'all': 'all(x)', 'zip': 'zip(x, y)',
+    'range/1': 'range(x)', 'range/2': 'range(x, y)', 'range/3': 'range(x, y, z)',
+    'empty': 'fp.empty(x)', 'dim': 'fp.dim(x)', 'size': 'fp.size(x, y)', 'fst': 'fp.fst(x)', 'snd': 'fp.snd(x)',
+    '<': '(x < y)', '<=': '(x <= y)', '>': '(x > y)', '>=': '(x >= y)', '==': '(x == y)', '!=': '(x != y)',
+    'and': '(x and y)', 'or': '(x or y)', 'not': '(not x)', 'ref': 'x[y]', 'slice': 'x[y:z]',
+    'call': 'tab_h(x)', 'ctor': 'fp.MPFloatContext(x)',
+    'abs': 'abs(x)', 'round_exact': 'fp.round_exact(x)', '**': '(x ** y)',
+}
+OP_SURFACE = {'add': '+', 'sub': '-', 'mul': '*', 'div': '/', 'mod': '%'}
+
+
+def gen_tables(ck):
+    """Regenerate (surface name, node class, emitted implementation) by parsing and compiling one
+    one-line function per documented name with the real front end and BytecodeCompiler."""
+    import ast as pyast
+    from fpy2.interpret.byte import BytecodeCompiler, make_namespace
+    snips = dict(TABLE_HELPERS)
+    for key, (_, ar, tmpl) in lang.OPS.items():
+        snips[OP_SURFACE.get(key, key)] = tmpl.format('x', 'y', 'z')
+    src = 'import fpy2 as fp\n\n@fp.fpy\ndef tab_h(x):\n    return x\n\n'
+    keys = sorted(snips)
+    for i, k in enumerate(keys):
+        src += f'@fp.fpy\ndef tab_{i}(x, y, z):\n    return {snips[k]}\n\n'
+    mod = lang.load_module(ck.dir, 'c04_tables_mod', src)
+    ns = make_namespace()
+
+    def qual(o):
+        return getattr(o, '__module__', '?') + '.' + getattr(o, '__qualname__', repr(o))
+
+    def descr(e):
+        if isinstance(e, pyast.Call):
+            f = e.func
+            nm = f.id if isinstance(f, pyast.Name) else pyast.unparse(f)
+            tgt = ns.get(nm)
+            kws = ','.join(f'{k.arg}={pyast.unparse(k.value)}' for k in e.keywords)
+            inner = ''
+            if nm in ('list', '__fpy_fraction'):
+                inner = '(' + descr(e.args[0]) + ')'
+            return (qual(tgt) if tgt is not None else 'py.' + nm) + (f'[{kws}]' if kws else '') + inner
+        if isinstance(e, pyast.Compare):
+            return type(e.ops[0]).__name__ + '(' + descr(e.left) + ',' + descr(e.comparators[0]) + ')'
+        if isinstance(e, pyast.BoolOp):
+            return 'BoolOp.' + type(e.op).__name__
+        if isinstance(e, pyast.UnaryOp):
+            return 'UnaryOp.' + type(e.op).__name__ + '(' + descr(e.operand) + ')'
+        if isinstance(e, pyast.Subscript):
+            return 'Subscript(' + descr(e.slice) + ')'
+        if isinstance(e, pyast.Name):
+            return 'name'
+        return type(e).__name__
+    entries = []
+    for i, k in enumerate(keys):
+        fn = getattr(mod, f'tab_{i}')
+        node = fn.ast.body.stmts[0].expr
+        py = BytecodeCompiler(fn.ast, fn.env)._visit_function(fn.ast, None)
+        entries.append((k, type(node).__name__, descr(py.body[0].value)))
+    exporter = []
+    for d in (lang._NULLARY, lang._UNARY, lang._BINARY):
+        for node, key in d.items():
+            exporter.append((node, lang.OPS[key][0]))
+    exporter.append(('Fma', 'OFma'))
+    q = lambda t: '"' + t.replace('"', "'") + '"'  # noqa: E731
+    text = ('From Coq Require Import List Bool String.\nFrom FpyV Require Import Lang.Syntax Lang.Tables.\n'
+            'Import ListNotations.\nOpen Scope string_scope.\n'
+            '(* regenerated from ' + str(ck.dir) + ' on this run: surface name, node class built by the parser, '
+            'implementation the bytecode compiler emits *)\n'
+            'Definition gen_table : list entry := [\n  ' +
+            ';\n  '.join(f'({q(a)}, {q(b)}, {q(c)})' for a, b, c in entries) + '\n].\n'
+            'Definition exporter_table : list (string * op) := [\n  ' +
+            ';\n  '.join(f'({q(a)}, {b})' for a, b in exporter) + '\n].\n'
+            'Lemma tables_compose : tables_ok gen_table = true.\nProof. vm_compute. reflexivity. Qed.\n'
+            'Lemma exporter_agrees : exporter_ok exporter_table = true.\nProof. vm_compute. reflexivity. Qed.\n')
+    ok, out = ck.dyn_theory('C04Tables', text=text)
+    ck.evaluations += len(entries)
+    ck.count('table-entries', len(entries))
+    if not ok:
+        # find the concrete entries that break the obligation
+        diag = ('From Coq Require Import List Bool String.\nFrom FpyV Require Import Lang.Syntax Lang.Tables.\n'
+                'Import ListNotations.\nOpen Scope string_scope.\n' + text.split('Open Scope string_scope.\n', 1)[1].split('Lemma tables_compose')[0])
+        res = ck.coq_eval_raw(diag, '(filter (fun e => negb (entry_ok e)) gen_table, '
+                              'filter (fun s => negb (existsb (fun e : entry => String.eqb (fst (fst e)) s) gen_table)) required)',
+                              name='C04TablesDiag')
+        ck.violation('an operator table of the parser / bytecode compiler maps a documented name to a different operation '
+                     '(entries: surface name, node class, emitted implementation; then missing names)',
+                     {'failing_entries': res[-3000:]})
+    return ok
+
+
+KEY_MINMAX = 'minmax-zero-tie-fraction'
+
+
+class patched_minmax:
+    """Run fpy2 with ONLY the +-0 tie-break of byte._unchecked_min/_unchecked_max corrected (fixes/C04-minmax-zero-tie.diff);
+    used to classify a disagreement as the recorded finding (it must disappear under this patch and nothing else)."""
+
+    def __enter__(self):
+        import fpy2.interpret.byte as B
+        from fpy2.number import Float
+        self.B, self.old = B, (B._unchecked_min, B._unchecked_max)
+
+        def zs(x):
+            return x.s if isinstance(x, Float) else x < 0
+
+        def umin(vals):
+            for x in vals:
+                if isinstance(x, Float) and x.isnan:
+                    return x
+            result = vals[0]
+            for x in vals[1:]:
+                if x < result:
+                    result = x
+                elif x == result and zs(x) and not zs(result):
+                    result = x
+            return result
+
+        def umax(vals):
+            for x in vals:
+                if isinstance(x, Float) and x.isnan:
+                    return x
+            result = vals[0]
+            for x in vals[1:]:
+                if x > result:
+                    result = x
+                elif x == result and not zs(x) and zs(result):
+                    result = x
+            return result
+        B._unchecked_min, B._unchecked_max = umin, umax
+        return self
+
+    def __exit__(self, *a):
+        self.B._unchecked_min, self.B._unchecked_max = self.old
+
+
+def run_program(ck, fn, runs_in, count=True):
+    """runs_in: list of (args, caller CtxSpec|None).  -> (list of Coq run terms, metas)"""
+    runs, metas = [], []
+    for args, caller in runs_in:
+        def thunk(args=args, caller=caller):
+            pa = [py_of_arg(a) for a in args]
+            if caller is None:
+                return fn(*pa)
+            return fn(*pa, ctx=caller.obj())
+        got = call_with_timeout(thunk)
+        cargs = clist(cval_of_py(a) for a in args)
+        cc = 'None' if caller is None else f'(Some {caller.coq()})'
+        runs.append(f'({cargs}, {cc}, {got})')
+        metas.append({'args': [repr(a) for a in args], 'caller': None if caller is None else caller.py(), 'observed': got})
+        if count:
+            ck.evaluations += 1
+            ck.count('outcome:' + got.split(' ')[0].strip('()'))
+            ck.count('caller:' + ('none' if caller is None else caller.kind))
+    return runs, metas
+
+
+def load_case(ck, idx, prog, modname):
+    """Load a program through the real front end and check that the AST it built exports to the generator's term."""
     try:
         mod = prog.load(ck.dir / 'progs', modname)
     except Exception as e:  # noqa: BLE001
         return ('rejected', f'{type(e).__name__}: {str(e)[:300]}', prog)
     fn = mod.main
-    # the parser is inside the loop: the AST it built must export to the generator's own term
     try:
         exported = {f.name: f.coq() for f in lang.export_program(fn).funcs}
     except lang.Unsupported as e:
         return ('export-failed', str(e), prog)
-    term = prog.coq()
     mine = {f.name: f.coq() for f in prog.funcs}
     same = all(mine.get(k) == v for k, v in exported.items()) and 'main' in exported
+    return ('ok', fn, same, (exported, mine))
+
+
+def make_case(ck, idx, rng, malformed, nargs):
+    """Generate program #idx, load it, run it."""
+    g = ProgGen(rng, malformed=malformed)
+    prog, sig = g.program()
+    r = load_case(ck, idx, prog, f'c04_prog_{idx:05d}')
+    if r[0] != 'ok':
+        return r
+    _, fn, same, terms = r
     callers = [small_ctx(rng) for _ in range(3)]
-    runs, metas = [], []
+    runs_in = []
     for j in range(nargs):
         args = g.args(sig, p_special=(0.0 if j == 0 else 0.25))
         for caller in (None, callers[j % 3]):
-            def thunk(args=args, caller=caller):
-                pa = [py_of_arg(a) for a in args]
-                if caller is None:
-                    return fn(*pa)
-                return fn(*pa, ctx=caller.obj())
-            got = call_with_timeout(thunk)
-            cargs = clist(cval_of_py(a) for a in args)
-            cc = 'None' if caller is None else f'(Some {caller.coq()})'
-            runs.append(f'({cargs}, {cc}, {got})')
-            metas.append({'args': [repr(a) for a in args], 'caller': None if caller is None else caller.py(), 'observed': got})
-            ck.evaluations += 1
-            ck.count('outcome:' + got.split(' ')[0].strip('()'))
-            ck.count('caller:' + ('none' if caller is None else caller.kind))
-    case = f'({term}, "main", {clist(runs)})'
-    return ('ok', case, metas, prog, same, g.features, (exported, mine))
+            runs_in.append((args, caller))
+    runs, metas = run_program(ck, fn, runs_in)
+    case = f'({prog.coq()}, "main", {clist(runs)})'
+    return ('ok', case, metas, prog, same, g.features, terms, fn, runs_in)
+
+
+def directed_programs():
+    """Hand-written programs aimed at the clauses of the property (and at the recorded finding)."""
+    from ..lang import Func, Node, Program
+    V = lambda x: Node('var', x)            # noqa: E731
+    L = lambda q: Node('num', N.fin(q))     # noqa: E731
+    PVn = lambda x: Node('pvar', x)         # noqa: E731
+    params = ['x', 'y', 'n', 'xs', 'ys']
+    out = []
+    # the recorded finding: a literal / len() zero in a +-0 tie
+    body = [Node('return', Node('tuple', [
+        Node('min', [L(0), V('x')]), Node('min', [V('x'), L(0)]), Node('max', [L(0), V('x')]), Node('max', [V('x'), L(0)]),
+        Node('min', [Node('len', Node('slice', V('xs'), L(1), L(1))), V('x'), V('y')]),
+        Node('amax', Node('list', [V('x'), L(0)]))]))]
+    out.append(('minmax-literal-zero', Program([Func('main', params, None, body)]), KEY_MINMAX,
+                [([N.of(-0.0), N.of(0.0), N.of(1), [N.of(1), N.of(2)], [N.of(1)]], None),
+                 ([N.of(0.0), N.of(-0.0), N.of(1), [N.of(1), N.of(2)], [N.of(1)]], CtxSpec('MPFloat', p=3)),
+                 ([N.of(1.5), N.of(-2), N.of(1), [N.of(1), N.of(2)], [N.of(1)]], None)]))
+    # the same ties with Float zeros only: documented behaviour, no finding
+    body = [Node('assign', PVn('z'), Node('op1', 'round', L(0))),
+            Node('return', Node('tuple', [Node('min', [V('z'), V('x')]), Node('min', [V('x'), V('z')]),
+                                          Node('max', [V('z'), V('x')]), Node('max', [V('x'), V('z')]),
+                                          Node('amin', V('xs')), Node('amax', V('xs'))]))]
+    out.append(('minmax-float-zero', Program([Func('main', params, None, body)]), None,
+                [([N.of(-0.0), N.of(0.0), N.of(1), [N.of(0.0), N.of(-0.0)], [N.of(1)]], None),
+                 ([N.of(0.0), N.of(-0.0), N.of(1), [N.of(-0.0), N.of(0.0), N.of(float('nan'))], [N.of(1)]], None)]))
+    # a context leaking past its block on an early return from nested loops, then used again by the caller
+    c2 = Node('ctor', 'MPFloat', 'RNE', None, [L(2)])
+    helper = Func('scan', ['zs', 't'], None, [
+        Node('for', PVn('a'), V('zs'), [Node('for', PVn('b'), V('zs'), [Node('with', None, c2, [
+            Node('if1', Node('cmp', ['>'], [Node('op2', 'add', V('a'), V('b')), V('t')]), [Node('return', Node('op2', 'mul', V('a'), V('b')))])])])]),
+        Node('return', Node('op2', 'add', V('t'), L(F(1, 10))))])
+    body = [Node('assign', PVn('r'), Node('call', 'scan', [V('xs'), V('x')])),
+            Node('assign', PVn('u'), Node('op2', 'add', V('y'), L(F(1, 10)))),
+            Node('with', 'c', Node('ctor', 'MPFloat', 'RTZ', None, [Node('op2', 'add', V('n'), L(4))]), [
+                Node('assign', PVn('w'), Node('op2', 'div', V('y'), L(3))),
+                Node('with', None, Node('ctxval', 'fp.REAL', CtxSpec('REAL')), [Node('assign', PVn('e'), Node('op2', 'div', V('y'), L(3)))]),
+                Node('assign', PVn('w2'), Node('op2', 'div', V('y'), L(3)))]),
+            Node('assign', PVn('v'), Node('op2', 'div', V('y'), L(3))),
+            Node('return', Node('tuple', [V('r'), V('u'), V('w'), V('e'), V('w2'), V('v'), V('c')]))]
+    out.append(('early-return-nested', Program([helper, Func('main', params, None, body)]), None,
+                [([N.of(1.7), N.of(0.1), N.of(k), [N.of(1), N.of(3.14159), N.of(5)], [N.of(1)]], c)
+                 for k in (1, 2, 3) for c in (None, CtxSpec('MPFloat', p=2), CtxSpec('IEEE', es=3, nbits=7))]))
+    return out
 
 
 def run(ck):
@@ -104,15 +303,38 @@ def run(ck):
     if ok:
         ck.props('Props/C04.v')
 
+    gen_tables(ck)
+
+    from fractions import Fraction
+    globals()['F'] = Fraction
     rng = Rng(ck.seed, 'c04')
-    nprog = 2500 if thorough else 340
+    nprog = 2500 if thorough else 330
     nargs = 6 if thorough else 4
     cases, info = [], []
     rejected = 0
     t0 = time.time()
+
+    def add_case(tag, case, metas, prog, fn, runs_in, key, malformed):
+        cases.append(case)
+        info.append({'tag': tag, 'prog': prog, 'metas': metas, 'fn': fn, 'runs_in': runs_in, 'key': key, 'malformed': malformed})
+
+    for di, (name, prog, key, runs_in) in enumerate(directed_programs()):
+        r = load_case(ck, di, prog, f'c04_directed_{di:02d}')
+        if r[0] != 'ok':
+            ck.broken.append(f'directed program {name}: {r[0]}: {r[1]}')
+            continue
+        _, fn, same, terms = r
+        if not same:
+            ck.violation('the AST built by the real parser/decorator differs from the program text (directed program)',
+                         {'program': prog.source(), 'generated': terms[1], 'parsed': terms[0]})
+        runs, metas = run_program(ck, fn, runs_in)
+        ck.count('directed:' + name)
+        ck.nontriv(('directed', name))
+        add_case('directed:' + name, f'({prog.coq()}, "main", {clist(runs)})', metas, prog, fn, runs_in, key, False)
+
     for idx in range(nprog):
         malformed = (idx % 8 == 7)
-        r = make_case(ck, idx, Rng(ck.seed, f'c04-{idx}'), malformed, nargs, None)
+        r = make_case(ck, idx, Rng(ck.seed, f'c04-{idx}'), malformed, nargs)
         if r[0] != 'ok':
             rejected += 1
             ck.count('generator:' + r[0])
@@ -120,7 +342,7 @@ def run(ck):
                 ck.log(f'program {idx} {r[0]}: {r[1]}')
                 ck.log(r[2].source())
             continue
-        _, case, metas, prog, same, feats, terms = r
+        _, case, metas, prog, same, feats, terms, fn, runs_in = r
         if not same:
             ck.violation('the AST built by the real parser/decorator differs from the program text that was generated '
                          '(operator or node mapped to a different construct)',
@@ -128,25 +350,49 @@ def run(ck):
         for f in feats:
             ck.count('feature:' + f)
         ck.nontriv(('prog', idx))
-        cases.append(case)
-        info.append((idx, prog, metas, malformed))
+        add_case(f'random:{idx}', case, metas, prog, fn, runs_in, None, malformed)
     ck.log(f'{len(cases)} programs generated and run on fpy2 in {time.time() - t0:.1f}s ({rejected} rejected)')
     if rejected > nprog // 20:
         ck.broken.append(f'generator: {rejected} of {nprog} generated programs were rejected by the fpy2 front end')
-    for c in cases[:2]:
+    for c in cases[3:5]:
         ck.sample(c[:1500])
     ck.rule = ('generated typed programs (nested/sequential with incl. computed constructor arguments, early returns in with in loops, '
                'helpers with/without declared context, list aliasing/mutation incl. through callees, slices, multi-generator comprehensions, '
                'zip/enumerate/range, reductions, chained comparisons; 1 in 8 malformed) x argument tuples incl. specials and unrepresentable '
-               'values x {no caller ctx, one of 3 small contexts}; non-trivial = distinct programs')
-    bad, err = ck.coq_eval_mismatches(HEADER, 'case4', cases, 'check4', chunk=max(4, len(cases) // 48 + 1), timeout=1500)
+               'values x {no caller ctx, one of 3 small contexts}, plus directed programs; non-trivial = distinct programs')
+    bad, err = ck.coq_eval_mismatches(HEADER, 'case4', cases, 'check4', chunk=max(4, (len(cases) + 15) // 16), timeout=1500)
     if err:
         ck.broken.append('correspondence evaluation failed: ' + err[:600])
-    for i in bad:
-        idx, prog, metas, malformed = info[i]
-        # which runs disagree, and what the model says
-        out = ck.coq_eval_raw(HEADER, f'let c := {cases[i]} in (bad_runs4 c, map (model4 (fst (fst c)) (snd (fst c))) (snd c))',
-                              name=f'diag_{idx:05d}', timeout=600)
-        ck.violation('fpy2 and the model of the documented semantics disagree on a generated program',
-                     {'program_index': idx, 'program': prog.source(), 'runs': metas, 'model_says': out[-3000:],
-                      'malformed_stream': malformed})
+    if bad:
+        ck.log(f'{len(bad)} programs disagree with the model')
+        # classify (at most 40 programs; directed ones first): does the disagreement disappear when ONLY the
+        # recorded min/max tie-break defect is corrected?
+        cls = sorted(bad, key=lambda i: (info[i]['key'] is None, i))[:40]
+        retry = []
+        with patched_minmax():
+            for i in cls:
+                runs, _ = run_program(ck, info[i]['fn'], info[i]['runs_in'], count=False)
+                retry.append(f'({info[i]["prog"].coq()}, "main", {clist(runs)})')
+        still, err2 = ck.coq_eval_mismatches(HEADER, 'case4', retry, 'check4', chunk=max(1, (len(retry) + 15) // 16), timeout=1500, tag='retry')
+        if err2:
+            ck.broken.append('classification run failed: ' + err2[:400])
+        fixed_by_patch = set(cls) - {cls[j] for j in still}
+        ndiag = 0
+        for i in bad:
+            it = info[i]
+            key = KEY_MINMAX if (i in fixed_by_patch and not err2) else None
+            if it['key'] is not None and key != it['key']:
+                key = None
+            out = ''
+            if key is None and ndiag < 4:
+                ndiag += 1
+                out = ck.coq_eval_raw(HEADER, f'let c := {cases[i]} in (bad_runs4 c, map (model4 (fst (fst c)) (snd (fst c))) (snd c))',
+                                      name='diag_' + it['tag'].replace(':', '_'), timeout=600)
+            ck.violation('fpy2 and the model of the documented semantics disagree on a program'
+                         + (' (only in the +-0 tie-break of min/max with a Fraction zero)' if key else ''),
+                         {'program_tag': it['tag'], 'program': it['prog'].source(), 'runs': it['metas'], 'model_says': out[-3000:],
+                          'malformed_stream': it['malformed']}, key=key)
+    # the recorded finding must still be observable through the directed program (otherwise the record is stale)
+    for i, it in enumerate(info):
+        if it['key'] == KEY_MINMAX and i not in bad:
+            ck.log('note: the directed min/max program agrees with the model — finding ' + KEY_MINMAX + ' no longer reproduces')
